@@ -486,6 +486,30 @@ def comparing_fns(prog):
         for bb, t in fn.mir.calls():
             if _item_eq_call(fn.mir.callee(t)):
                 direct.add(fn.path)
+    # Calling back into the caller's hook (`d.equal(..)`, dynamically any DiffHook impl, Patience's among them) is not
+    # comparing work of the function that makes the call: the call-graph edges that exist only because of DiffHook
+    # dispatch do not make a helper such as `report_equal(d, ..)` a comparing function.
+    HOOK = "algorithms::hook::DiffHook"
+    hook_methods = set()
+    for imp in prog.impls:
+        if imp.get("trait") and imp["trait"]["path"] == HOOK:
+            hook_methods |= {m_["path"] for m_ in imp["methods"]}
+    tr = prog.traits.get(HOOK)
+    if tr:
+        hook_methods |= {m_["path"] for m_ in tr["methods"]}
+
+    def dispatch_only(fn):
+        """DiffHook methods this function reaches only through trait dispatch on a generic hook"""
+        directly = set()
+        for bb, t in fn.mir.calls():
+            c = fn.mir.callee(t) or {}
+            if c.get("trait") == HOOK and c.get("resolved_local") and c.get("resolved"):
+                directly.add(c["resolved"])
+            elif c.get("trait") != HOOK and c.get("path") in hook_methods:
+                directly.add(c["path"])
+        return hook_methods - directly
+
+    skip = {fn.path: dispatch_only(fn) for fn in prog.user_fns() if fn.mir}
     res = set(direct)
     changed = True
     while changed:
@@ -493,7 +517,7 @@ def comparing_fns(prog):
         for fn in prog.user_fns():
             if fn.path in res:
                 continue
-            if any(n in res for n in g.edges.get(fn.path, ())):
+            if any(n in res and n not in skip.get(fn.path, ()) for n in g.edges.get(fn.path, ())):
                 res.add(fn.path)
                 changed = True
     return res, direct
